@@ -27,7 +27,7 @@ cat /tmp/msweep/todo.txt | while read name; do
   res=""
   hit=""
   for c in $(order $name); do
-    out=$(cd /verif && VERIF_REPO=$wt VERIF_TIER=quick timeout 1800 ./vcheck $c 2>&1); rc=$?
+    out=$(cd ${VSNAP:-/verif} && VERIF_REPO=$wt VERIF_TIER=quick timeout 900 ./vcheck $c 2>&1); rc=$?
     res="$res $c=$rc"
     if [ $rc -eq 1 ]; then hit=$c; break; fi
   done
